@@ -127,14 +127,34 @@ def rule_not_before_answer(ctx, res):
             if e[0] == 'call' and e[1] == B + 'set_state' and agg_variant(e[2][1]) == 'Bootstrapped':
                 pubs.setdefault(e[3], []).append(p)
     res.check(len(pubs) == 2, 'WHO', b.path, 'Bootstrapped is published at two sites (no contacts at all / after a completed attempt)', detail=str(sorted(pubs)))
-    e_resp = cond_edges(b, s.paths, lambda l: l[0] == 'eq' and l[3] is False and ((l[1][0] == 'loopvar' and l[1][2] == 'responses_received' and term_int(l[2]) == 0) or (isinstance(l[2], tuple) and l[2] and l[2][0] == 'loopvar' and l[2][2] == 'responses_received' and term_int(l[1]) == 0)))
+    # the response counter is found by its role, not by its name: a loop-carried local compared with 0
+    def zero_cmp(l):
+        """local id of the loop-carried variable in a literal `var == 0`, else None"""
+        if l[0] != 'eq':
+            return None
+        for x, y in ((l[1], l[2]), (l[2], l[1])):
+            if isinstance(x, tuple) and x and x[0] == 'loopvar' and term_int(y) == 0:
+                return x[1]
+        return None
+    uniq = {}
+    for p in s.paths:
+        for c in p.conds:
+            uniq.setdefault(id(c), c)
+    cands = sorted({zero_cmp(literal(c)) for c in uniq.values()} - {None})
+    counter = None
+    for cand in cands:
+        e = cond_edges(b, s.paths, lambda l, cand=cand: zero_cmp(l) == cand and l[3] is False)
+        if any(only_via_edge(b, blk, e) for blk in pubs):
+            counter = cand
+            break
+    e_resp = cond_edges(b, s.paths, lambda l: counter is not None and zero_cmp(l) == counter and l[3] is False)
     e_none = cond_edges(b, s.paths, lambda l: l[0] == 'bool' and l[3] is True and l[1][0] == 'call' and l[1][1].endswith('::is_empty') and is_field_of_param(l[1][2][0], 'self', 'starting_nodes'))
     e_norouter = cond_edges(b, s.paths, lambda l: l[0] == 'bool' and l[3] is True and l[1][0] == 'call' and l[1][1].endswith('::is_empty') and is_field_of_param(l[1][2][0], 'self', 'routers'))
     n_ok = 0
     for blk, paths in pubs.items():
         if only_via_edge(b, blk, e_resp):
             n_ok += 1
-            res.ok('DOM', b.path, 'Bootstrapped (after an attempt) is published only through responses_received != 0', site=b.term(blk)['sp'])
+            res.ok('DOM', b.path, 'Bootstrapped (after an attempt) is published only through <response counter> != 0', site=b.term(blk)['sp'])
         elif only_via_edge(b, blk, e_none) and only_via_edge(b, blk, e_norouter):
             # the no-contacts path: nothing was sent before, and the task then parks forever
             sent = False
@@ -155,10 +175,10 @@ def rule_not_before_answer(ctx, res):
         for e in p.effects:
             if e[0] == 'assert' and e[1] == 'overflow:Add':
                 t = e[2][1] if e[2][0] == 'overflow' else None
-                if t and t[2][0] == 'loopvar' and t[2][2] == 'responses_received':
+                if t and t[2][0] == 'loopvar' and counter is not None and t[2][1] == counter:
                     hm = [literal(c) for c in p.conds if literal(c)[0] == 'bool' and literal(c)[1][0] == 'call' and literal(c)[1][1] == B + 'handle_message']
                     incs.add(bool(hm) and hm[-1][3] is True)
-    res.check(incs == {True}, 'DOM', b.path, 'responses_received is incremented only when handle_message returned true', detail=str(incs))
+    res.check(incs == {True}, 'DOM', b.path, 'the response counter is incremented only when handle_message returned true', detail=str(incs))
     hb = ctx.body(B + 'handle_message')
     res.touch(hb)
     hs = Sym(hb)
@@ -277,17 +297,40 @@ def rule_backoff(ctx, res):
     res.touch(b)
     s = Sym(b)
     s.run()
+    def upper(t):
+        """an upper bound of an unsigned integer term, or None (unknown)"""
+        t = strip_transparent(t)
+        v = term_int(t)
+        if v is not None:
+            return v
+        if not isinstance(t, tuple) or not t:
+            return None
+        if t[0] == 'cast':
+            return upper(t[1])
+        if t[0] == 'call' and t[1].split('::')[-1] == 'min' and len(t[2]) == 2:
+            us = [u for u in (upper(t[2][0]), upper(t[2][1])) if u is not None]
+            return min(us) if us else None
+        if t[0] == 'bin' and t[1].replace('WithOverflow', '') in ('Add', 'Mul'):
+            a, b2 = upper(t[2]), upper(t[3])
+            if a is None or b2 is None:
+                return None
+            return a + b2 if t[1].startswith('Add') else a * b2
+        if t[0] == 'field' and t[2] == '0':          # (value, overflow flag) of a checked operation
+            return upper(t[1])
+        return None
     ok = False
+    bound = None
     for p in s.complete_paths():
         r = p.ret
+        ok = False
         if r[0] == 'call' and r[1].endswith('Duration::from_secs'):
             pw = strip_transparent(r[2][0])
             if pw[0] == 'call' and pw[1].endswith('::pow') and term_int(pw[2][0]) == 2:
-                ex = strip_transparent(pw[2][1])
-                mn = find_calls(pw, '::min')
-                if mn and term_int(mn[0][2][1]) == 9:
-                    ok = True
-    res.check(ok, 'CONST', b.path, 'back-off = 2^min(attempt + 1, 9) seconds <= 512 s')
+                bound = upper(pw[2][1])
+                ok = bound is not None and bound <= 9
+        if not ok:
+            break
+    res.check(ok, 'CONST', b.path, 'back-off = 2^e seconds with e <= 9 on every path, i.e. at most 512 s (the "about 11 minutes" of the property: 512 s + 2.5 s + bucket rounds)', detail='upper bound of the exponent: %s' % bound, key='backoff-cap')
     for name, want in (('NO_NETWORK_TIMEOUT', 5000), ('PERIODIC_CHECK_TIMEOUT', 5000), ('INITIAL_TIMEOUT', 2500), ('NODE_TIMEOUT', 500)):
         ms = ctx.f.duration_ms('action::bootstrap::' + name)
         res.check(ms == want, 'CONST', 'action::bootstrap::' + name, '%s == %d ms' % (name, want), detail=str(ms))
